@@ -639,6 +639,8 @@ class FeatureList(collections.UserList):
         if not isinstance(type_, str):
             type_ = tuple(t.lower() for t in type_)
         for ft in self.data:
+            if ft.type is None:
+                continue
             if (isinstance(type_, str) and ft.type.lower() == type_.lower() or
                     isinstance(type_, tuple) and ft.type.lower() in type_):
                 return ft
@@ -656,6 +658,8 @@ class FeatureList(collections.UserList):
             type_ = tuple(t.lower() for t in type_)
         fts = []
         for ft in self.data:
+            if ft.type is None:
+                continue
             if (isinstance(type_, str) and ft.type.lower() == type_.lower() or
                     isinstance(type_, tuple) and ft.type.lower() in type_):
                 fts.append(ft)
